@@ -21,6 +21,7 @@ type Clause struct {
 type LoopSpec struct {
 	Invariants []Clause
 	Decreases  *Clause
+	Steps      []Clause // two-state relations of one iteration: old(e) is e at the head of the iteration
 	Modifies   []ModTarget
 	HasMod     bool
 }
@@ -57,6 +58,7 @@ type FuncContract struct {
 	Decreases  *Clause         // function-level measure for (self-)recursive calls
 	GhostSets  []GhostSet      // ghost assignments performed on entry (specification state updated by this function)
 	OwnReads   []string        // heap key prefixes: plain loads from these keys must read objects allocated by this activation
+	GoOwns     []string        // captured variables of a goroutine body that only this goroutine touches while it runs: their cell and element storage survive its channel operations
 	AtomicOnly []string        // captured variables of a goroutine body that may only be accessed through sync/atomic: no plain load or store may touch their cell
 	Guards     []Guard         // lock discipline: plain accesses to these keys need the condition
 	MapKeys    []Guard         // domain refinement: every key stored into a map with this domain key satisfies Cond ($key)
@@ -145,7 +147,7 @@ func newContractSet() *ContractSet {
 	return &ContractSet{Funcs: map[string]*FuncContract{}, Specs: map[string]*SpecFunc{}, Axioms: map[string]*Axiom{}, Ghosts: map[string]*GhostVar{}}
 }
 
-var keywordRe = regexp.MustCompile(`^(func|property|requires|ensures|modifies|loop|assert|trusted|inline|nopanic|safety|spec|axiom|lemma|invariant|ghostset|ghost|use|reveal|calls|ownwrites|ownreads|abstract|atomiconly|guarded|mapkeys|terminates|decreases|package)\b`)
+var keywordRe = regexp.MustCompile(`^(func|property|requires|ensures|modifies|loop|assert|trusted|inline|nopanic|safety|spec|axiom|lemma|invariant|ghostset|ghost|use|reveal|calls|ownwrites|ownreads|abstract|atomiconly|goroutineowns|guarded|mapkeys|terminates|decreases|package)\b`)
 var labelRe = regexp.MustCompile(`^\[([A-Za-z0-9_.<>=%+\-]+)\]\s*(.*)$`)
 
 func canonFuncName(pkg, decl string) string {
@@ -307,8 +309,10 @@ func (cs *ContractSet) parseFile(path string, defaultPkg string) error {
 				ls.Invariants = append(ls.Invariants, c)
 			case "decreases":
 				ls.Decreases = &c
+			case "step":
+				ls.Steps = append(ls.Steps, c)
 			default:
-				return fmt.Errorf("%s:%d: loop clause must be invariant or decreases", path, it.line)
+				return fmt.Errorf("%s:%d: loop clause must be invariant, step or decreases", path, it.line)
 			}
 		case "assert":
 			// assert after call <callee>[#n]: expr
@@ -429,6 +433,11 @@ func (cs *ContractSet) parseFile(path string, defaultPkg string) error {
 				return fmt.Errorf("%s:%d: atomiconly outside func", path, it.line)
 			}
 			cur.AtomicOnly = append(cur.AtomicOnly, strings.Fields(strings.ReplaceAll(it.text, ",", " "))...)
+		case "goroutineowns":
+			if cur == nil {
+				return fmt.Errorf("%s:%d: goroutineowns outside func", path, it.line)
+			}
+			cur.GoOwns = append(cur.GoOwns, strings.Fields(strings.ReplaceAll(it.text, ",", " "))...)
 		case "calls":
 			if cur == nil {
 				return fmt.Errorf("%s:%d: calls outside func", path, it.line)
